@@ -170,12 +170,29 @@ class HookedArmV6(ArmV6):
         return self.cp_words[0]
 
 
+class TransformRAM(RAM):
+    """an embedder's device class: a RAM whose read() / write() are overridden (here: the bytes are kept inverted in a store of its own - think of a ROM
+    image decoder, a mirrored or a recording RAM). To the processor it is a RAM like any other; `memory_array` of the base class stays what RAM made it."""
+
+    def __init__(self, size):
+        super().__init__(size)
+        self.cells = bytearray(b'\xff' * size)
+
+    def read(self, address, size):
+        chunk = bytes(x ^ 0xFF for x in self.cells[address:address + size])
+        return bytearray(chunk + bytes(size - len(chunk)))
+
+    def write(self, address, size, value):
+        data = bytes(value)[:max(self.size - address, 0)]
+        self.cells[address:address + len(data)] = bytes(x ^ 0xFF for x in data)
+
+
 def new_cpu(overrides=None, hooked=False, mems=None):
-    """fresh instance for a config; mems = [(begin, size)] replaces the configured memory list"""
+    """fresh instance for a config; mems = [(begin, size[, 'x'])] replaces the configured memory list ('x': an embedder-defined RAM subclass)"""
     p = config_path(overrides)
     cpu = (HookedArmV6 if hooked else ArmV6)(p)
     if mems is not None:
-        cpu.mem.memories = [MemoryController(RAM(size), beg, beg + size) for beg, size in mems]
+        cpu.mem.memories = [MemoryController((TransformRAM if len(m) > 2 and m[2] == 'x' else RAM)(m[1]), m[0], m[0] + m[1]) for m in mems]
     return cpu
 
 
@@ -235,7 +252,7 @@ def snapshot(cpu, with_mem=True):
 def mem_bytes(mem):
     """contents of a memory device: its backing bytearray where the device keeps one as an instance attribute (so that a change of its length shows),
     the device's own read() otherwise (an implementation may store its bytes any way it likes)"""
-    if isinstance(vars(mem).get('memory_array'), bytearray):
+    if type(mem) is RAM and isinstance(vars(mem).get('memory_array'), bytearray):
         return bytes(mem.memory_array)
     return bytes(mem.read(0, mem.size))
 
@@ -243,7 +260,7 @@ def mem_bytes(mem):
 def mem_fill(mem, offset, data):
     """what an embedder does to load an image: through the backing bytearray if there is one, else through the device's write()"""
     arr = vars(mem).get('memory_array')
-    if isinstance(arr, bytearray):
+    if type(mem) is RAM and isinstance(arr, bytearray):
         arr[offset:offset + len(data)] = data
     else:
         for o in range(0, len(data), 4096):
